@@ -212,6 +212,33 @@ def kinds():
 
     K.append(("named-range", k_namedrange, [("get_named_range(name)", lambda d, n: getattr(d.body.get_named_range(n), "name", None))]))
 
+    def k_rangetable(all_names):
+        # the identifier is the name of the *table* a named range points at: it is written, quoted and
+        # escaped, into table:cell-range-address and must be read back as given
+        doc = Document("spreadsheet")
+        doc.body.clear()
+        for i, nm in enumerate(all_names):
+            doc.body.append(Table(nm, width=2, height=2))
+            doc.body.get_table(i).set_named_range(f"rng_{i}", "A1:B2")
+        return doc
+
+    def ranges_of_table(d, n):
+        got = [nr.name for nr in d.body.get_table(name=n).get_named_ranges(table_name=n)]
+        return n if got == ["rng_0"] else f"ranges found under the table name: {got}"
+
+    def table_of_range(d, n):
+        nr = d.body.get_named_range("rng_0")
+        return nr.table_name if nr is not None else None
+
+    def values_of_range(d, n):
+        nr = d.body.get_named_range("rng_0")
+        nr.get_values()
+        return n
+
+    K.append(("named-range-table", k_rangetable, [("get_named_ranges(table_name=)", ranges_of_table),
+                                                  ("NamedRange.table_name", table_of_range),
+                                                  ("NamedRange.get_values", values_of_range)]))
+
     def k_annotation(all_names):
         doc = text_doc()
         for nm in all_names:
@@ -278,9 +305,9 @@ def work(task):
     nev = 0
     classes = set()
     for n in chunk:
-        if kname in ("table", "named-range") and n != n.strip():
+        if kname in ("table", "named-range", "named-range-table") and n != n.strip():
             continue  # documented: these setters strip the name, the accepted identifier is n.strip()
-        all_names = [n] + [d for d in decoys(n) if not (kname in ("table", "named-range") and d != d.strip())]
+        all_names = [n] + [d for d in decoys(n) if not (kname in ("table", "named-range", "named-range-table") and d != d.strip())]
         ctx = None
         for attempt in (all_names, [n]):
             try:
@@ -324,6 +351,12 @@ def run(prop, tier, vseed):
     for ki in range(len(K)):
         for i in range(0, len(allnames), step):
             tasks.append((ki, allnames[i : i + step]))
+    # table names are quoted/escaped in range addresses only when an apostrophe meets a space or a dot,
+    # and an apostrophe is legal only inside the name: all such names one character longer than the bound
+    extra = ["".join(t) for t in itertools.product(["a", "'", ".", " "], repeat=maxlen + 1)]
+    ki = [k[0] for k in K].index("named-range-table")
+    for i in range(0, len(extra), step):
+        tasks.append((ki, extra[i : i + step]))
     nproc = int(os.environ.get("VERIF_NPROC", "0")) or min(16, os.cpu_count() or 1)
     nev = 0
     failures = []
@@ -336,7 +369,7 @@ def run(prop, tier, vseed):
                 failures = report.compact(failures)
             classes |= c
     cov = {
-        "states": len(allnames),
+        "states": len(allnames) + len(extra),
         "transitions": nev,
         "traces_validated_against_impl": nev,
         "evaluations": nev,
